@@ -35,10 +35,11 @@ Proof.
 Qed.
 
 (* ---- ignore_whitespace off: the white-space repair is invisible ---- *)
+Ltac same := match goal with |- ?a = ?a => reflexivity | _ => idtac end.
 Ltac iw_step := match goal with
-  | |- lbind _ ?x _ = lbind _ ?x _ => destruct x; cbn [lbind]; try reflexivity
-  | |- match ?x with _ => _ end = match ?x with _ => _ end => destruct x; try reflexivity
-  | |- (if ?x then _ else _) = (if ?x then _ else _) => destruct x; try reflexivity
+  | |- lbind _ ?x _ = lbind _ ?x _ => destruct x; cbn [lbind]; same
+  | |- match ?x with _ => _ end = match ?x with _ => _ end => destruct x; same
+  | |- (if ?x then _ else _) = (if ?x then _ else _) => destruct x; same
   end.
 
 Lemma parse_start_states_iw_off : forall pe fx b st off re,
@@ -56,31 +57,37 @@ Lemma parse_rule_iw_off : forall src pe re_bad fx b i st errs,
   parse_rule src pe false re_bad (with_iw b fx) i st errs = parse_rule src pe false re_bad fx i st errs.
 Proof.
   intros src pe re_bad fx b i st errs. unfold parse_rule.
-  do 4 iw_step. rewrite parse_name_iw. do 5 iw_step.
+  do 4 iw_step.
+  match goal with |- match ?x with _ => _ end = _ => destruct x as [[ts on] no] end.
+  rewrite parse_name_iw. iw_step.
+  match goal with |- match ?x with _ => _ end = _ => destruct x as [name name_span] end.
+  iw_step. do 2 iw_step.
   rewrite parse_start_states_iw_off. reflexivity.
 Qed.
-
 Lemma parse_rules_iw_off : forall src awc pe re_bad fx b fuel i st errs,
   parse_rules src awc pe false re_bad (with_iw b fx) fuel i st errs =
   parse_rules src awc pe false re_bad fx fuel i st errs.
 Proof.
   intros src awc pe re_bad fx b fuel. induction fuel as [|fuel IH]; intros i st errs; [reflexivity|].
-  cbn [parse_rules]. do 3 iw_step; [apply IH|].
+  cbn [parse_rules]. do 3 iw_step. iw_step; [apply IH|].
   iw_step. iw_step; [apply IH|]. iw_step. iw_step. iw_step.
-  rewrite parse_rule_iw_off. iw_step. destruct a as [i' st']. apply IH.
+  rewrite parse_rule_iw_off.
+  match goal with |- match ?x with _ => _ end = _ => destruct x as [[i' st'] errs'|errs' e| |] end;
+    same. apply IH.
 Qed.
 
 Lemma parse_iw_off : forall src awc pe re_bad fx b fuel start,
   parse src awc pe false re_bad (with_iw b fx) fuel start = parse src awc pe false re_bad fx fuel start.
 Proof.
   intros src awc pe re_bad fx b fuel start. unfold parse.
-  iw_step. destruct a as [i st]. rewrite parse_rules_iw_off. reflexivity.
+  match goal with |- match ?x with _ => _ end = _ => destruct x as [[i st] errs|errs e| |] end;
+    same. rewrite parse_rules_iw_off. reflexivity.
 Qed.
 
 Lemma iw_off_irrelevant : iw_off_irrelevant_stmt.
 Proof.
   intros fx b src pos awc pe re_bad. unfold lex_from_str.
-  destruct (slice_from src pos) as [s| |]; cbn [obind]; try reflexivity.
+  destruct (slice_from src pos) as [s| |]; cbn [obind]; same.
   cbn [with_iw fix_header]. destruct (fix_header fx); apply parse_iw_off.
 Qed.
 
@@ -90,6 +97,15 @@ Qed.
 Example unescape_spec_applies :
   dangling [92; 34; 97; 92; 233]%N = false /\
   unescape [92; 34; 97; 92; 233]%N false = Done [34; 97; 233]%N.
+Proof. split; vm_compute; reflexivity. Qed.
+
+(* unescape_iw_spec, ignore_whitespace on:  a\<NBSP>\<U+3000>\<TAB>\#\"  ->  a\x{A0}\x{3000}\<TAB>\#"
+   (and off: the four non-meta characters lose their backslash) *)
+Example unescape_iw_applies :
+  unescape_gen true true [97; 92; 160; 92; 12288; 92; 9; 92; 35; 92; 34]%N false =
+    Done [97; 92; 120; 123; 65; 48; 125; 92; 120; 123; 51; 48; 48; 48; 125; 92; 9; 92; 35; 34]%N /\
+  unescape_gen true false [97; 92; 160; 92; 12288; 92; 9; 92; 35; 92; 34]%N false =
+    Done [97; 160; 12288; 9; 92; 35; 34]%N.
 Proof. split; vm_compute; reflexivity. Qed.
 
 (* spans_index_source: the repaired variant accepts the text on which today's code is refuted,
